@@ -901,14 +901,32 @@ func c05ClosedLoop(w *core.WorkerCtx, k int) *core.CaseResult {
 	spec := e2.GenSpec(r)
 	e2.SanitizeInitial(&spec)
 	sc := e2.GenWorkload(r, spec)
+	if k%8 == 7 {
+		// directed: relief moves targets from the overloaded shard 0 to shard 1, whose Prometheus scrapes rarely;
+		// the DESTINATION's sidecar restarts (its volume survives) one to three cycles after the moves began -
+		// whatever it reports afterwards, the source copies may only go when the destination has really scraped
+		t := func(id, kept int) e2.TargetSpec { return e2.TargetSpec{ID: id, Kept: kept, Explorer: "up"} }
+		spec = e2.Spec{MaxHead: 100, MaxProc: 150, Min: 2, Max: 8, Idle: "1000h", InitShards: 2, KeepPVC: true,
+			Targets: []e2.TargetSpec{t(0, 60), t(1, 49), t(2, 30)},
+			Initial: []e2.Placement{{Shard: 0, ID: 0}, {Shard: 0, ID: 1}, {Shard: 0, ID: 2}}}
+		sc = e2.Scenario{Spec: spec, Perturbed: 8}
+		sc.Events = []e2.Event{{AtCycle: 1 + r.Intn(3), Kind: "restart", Shard: 1, Cycles: 1}}
+		for c := 0; c < sc.Perturbed; c++ {
+			dst := 0
+			if c >= 5 {
+				dst = 1
+			}
+			sc.ScrapePlan = append(sc.ScrapePlan, []int{3, dst, 3, 3, 3, 3, 3, 3})
+		}
+	}
 	// a third of the runs with a restart / lost update in the middle of moves
-	if k%3 == 0 {
+	if k%3 == 0 && k%8 != 7 {
 		kinds := []string{"restart", "dropPost", "loseAck", "unready", "failStatus"}
 		sc.Events = append(sc.Events, e2.Event{AtCycle: r.Intn(sc.Perturbed), Kind: kinds[r.Intn(len(kinds))], Shard: r.Intn(3), Cycles: 1})
 	}
 	// another third: one pod cannot build the job's HTTP client for the whole run (its proxy rejects every
 	// scrape of that job without contacting the target): no move INTO that pod may ever complete
-	if k%3 == 1 {
+	if k%3 == 1 && k%8 != 7 {
 		sc.Events = append(sc.Events, e2.Event{AtCycle: 0, Kind: "noJobClient", Shard: r.Intn(2), Cycles: 1})
 		sc.NoConvergence = true
 	}
